@@ -1211,7 +1211,7 @@ def b_dict(ex, args, kwargs, e):
 
 @builtin
 def b_getattr(ex, args, kwargs, e):
-    if not ex.is_sym(args[1]):
+    if isinstance(args[1], str):
         return ex.getattr(args[0], args[1], e.lineno)
     return ex.world.dyn_getattr(ex, args[0], args[1], e)
 
